@@ -200,6 +200,8 @@ def _f_mul(a, b):
     if _is_bool_like(b) and is_sym(b):
         return s_where(b, a, 0.0 if _is_float_like(a) else 0)
     for c, o in ((a, b), (b, a)):
+        if isinstance(c, _pybool):
+            return o if c else (0.0 if _is_float_like(o) else 0)
         if not is_sym(c) and not isinstance(c, _pybool):
             if c == 0:
                 return 0.0 if (_is_float_like(c) or _is_float_like(o)) else 0
@@ -292,6 +294,8 @@ def s_div(a, b):
     if not is_sym(b):
         if b == 0:
             raise Unsupported("symbolic / 0")
+        if b == 1:
+            return _real(a)
         if isinstance(b, _pyfloat) and not isinstance(b, _pybool):
             return _real(a) * _real(Fraction(1) / Fraction(b))
     else:
